@@ -2,7 +2,7 @@
 from hypothesis import strategies as st
 
 from vf import gen, gen_tx
-from vf.core import Fails, Target, attempt, bx, hx, raised
+from vf.core import Fails, Target, attempt, bx, hexof, hx, raised
 from vf.ref import der, ec, txref
 
 PROPERTY = "C11"
@@ -73,16 +73,18 @@ def check(case):
         if raised(sig):
             f.add("sign/raises", sig)
         else:
-            rs = der.decode_strict(sig[:-1])
+            rs = der.decode_strict(sig[:-1]) if isinstance(sig, (bytes, bytearray)) else None
             z = int.from_bytes(txref.bip143_sighash(rtx, idx, sc, amount, flag), "big")
             ok = rs is not None and sig[-1] == flag and ec.ecdsa_verify(ec.pub(d), z, *rs)
-            f.expect(ok, "sign/invalid-for-reference-sighash", sig.hex())
+            f.expect(ok, "sign/invalid-for-reference-sighash", hexof(sig))
     return cls, f
 
 
 def _diff(got, want):
     if raised(got):
         return repr(got)
+    if not isinstance(got, (bytes, bytearray)):
+        return f"not a byte string: {got!r}"[:120]
     names = [("version", 4), ("hashPrevouts", 32), ("hashSequence", 32), ("outpoint", 36)]
     o = 0
     for n, ln in names:
